@@ -8,7 +8,7 @@ R07.flag  f(false) == f() outright for the bool-flag overloads
 from engine import term as T, agg, build, vg
 from engine.agg import ELEM, TU
 from engine.report import HOLDS, VIOLATED, UNDECIDED
-from .common import Analysed, fn_where, joint, twin_same, region
+from .common import Analysed, fn_where, joint, twin_same, region, narrowing
 
 DOMAIN = '_ZTISt12domain_error'
 INVARG = '_ZTISt16invalid_argument'
@@ -262,6 +262,7 @@ def main(rep, ws, tier):
                     rep.ob(oid + '#flag', 'R07.flag', UNDECIDED, R.err.get(p['flag'], '')); continue
                 JZ = joint(SZ, p['outs'])
                 rep.ob(oid + '#flag', 'R07.flag', HOLDS if JZ is JU else VIOLATED, '' if JZ is JU else 'f(false) and f() have different value graphs', fn_where(SZ.fn))
+    narrowing(rep, ws, [gen('d')[0]], 'R07.prec')
     rep.floor('checked/unchecked twins', npairs, 54 * len(types))
     rep.assumptions += ['IEEE-exact term equality', 'a wrapper\'s reference parameters do not alias']
     rep.undecided_clauses += ['"guards fire only within a factor four of max; well-conditioned input never throws" (numeric range claim)',
